@@ -530,6 +530,8 @@ class Engine:
             return ("downcast", v, st[1])
         if k == "i":
             ix = st[1]
+            if ix[0] == "int" and v[0] in ("array", "vec", "tuple") and 0 <= ix[1] < len(v[1]):
+                return v[1][ix[1]]          # element of a known array (`let [a, b] = [x, y]`)
             if ix[0] == "sym" and str(ix[1]).startswith("index@bb"):
                 h_ = int(str(ix[1])[len("index@bb"):])
                 cv = path.assume.get(("index-loop", h_))
